@@ -275,6 +275,17 @@ partial def loop (inp : IO.FS.Stream) (out : IO.FS.Stream) (st : DState) : IO Un
     | "nop" =>
       out.putStrLn "nop"
       loop inp out st
+    | "ftrunc" =>
+      -- the file is cut to n bytes behind the library's back; what remains is loaded afresh
+      match st.img with
+      | none =>
+        out.putStrLn "noimg"
+        loop inp out st
+      | some img =>
+        out.putStrLn "ftrunc ok"
+        match loadContainer { img.st with buf := img.st.buf.take (kv.nat "n"), pos := 0 } with
+        | .ok img' => loop inp out { st with img := some img' }
+        | .error _ => loop inp out { st with img := none }
     | "stnew" =>
       let s : Store := { be := backendOf (kv.get "be"), buf := parseData (kv.get "data"), pos := 0 }
       out.putStrLn s!"st new {stState s}"
